@@ -18,6 +18,7 @@ macro_rules! dispatch {
             "C05" => $f(&props::c05::C05, $($arg),*),
             "C06" => $f(&props::c06::C06, $($arg),*),
             "C08" => $f(&props::c08::C08, $($arg),*),
+            "C09" => $f(&props::c09::C09, $($arg),*),
             _ => { eprintln!("unknown property {}", $id); 2 }
         }
     };
